@@ -233,7 +233,8 @@ impl<'tcx> Extract<'tcx> {
 
     /// names of type parameters mentioned anywhere in `t`
     fn params_in(&self, t: Ty<'tcx>, out: &mut Vec<String>) {
-        for a in t.walk() {
+        let mut w = t.walk();
+        while let Some(a) = w.next() {
             if let GenericArgKind::Type(t) = a.kind() {
                 match t.kind() {
                     ty::Param(p) => {
@@ -243,10 +244,12 @@ impl<'tcx> Extract<'tcx> {
                         }
                     }
                     ty::Closure(did, _) => {
+                        // the closure's own generic arguments are those of its parent: noise here
                         let n = format!("closure:{}", self.fn_key(*did));
                         if !out.contains(&n) {
                             out.push(n);
                         }
+                        w.skip_current_subtree();
                     }
                     _ => {}
                 }
@@ -409,7 +412,18 @@ impl<'tcx> Extract<'tcx> {
                             ("key", J::s(self.fn_key(rd))),
                             ("krate", J::s(tcx.crate_name(rd.krate).to_string())),
                             ("local", J::Bool(rd.is_local())),
-                            ("kind", J::s(format!("{:?}", std::mem::discriminant(&inst.def)).replace("Discriminant", ""))),
+                            ("kind", J::s(format!("{:?}", inst.def).split('(').next().unwrap_or("").to_string())),
+                            (
+                                "preds",
+                                if matches!(inst.def, ty::InstanceKind::Item(_))
+                                    && matches!(tcx.def_kind(rd), DefKind::Fn | DefKind::AssocFn)
+                                {
+                                    self.call_predicates(rd, inst.args)
+                                } else {
+                                    J::Null
+                                },
+                            ),
+                            ("is_default_method", J::Bool(tcx.trait_of_assoc(rd).is_some())),
                         ]),
                     ));
                 }
